@@ -677,6 +677,12 @@ func (r *ruleGen) apply(sig int, transform bool) (app, bool) {
 			codes = append(codes, c)
 		}
 	}
+	wrap := false
+	if f.args == "n*" && x.chance(6) {
+		// variadic integer arithmetic over factors of 2^64: the product (or sum) of non-zero arguments wraps to 0
+		wrap = true
+		codes = []string{"n", "n", "n", "n"}[:x.n(3, 4)]
+	}
 	badArity := false
 	if x.bad(12) { // wrong arity
 		badArity = true
@@ -711,6 +717,9 @@ func (r *ruleGen) apply(sig int, transform bool) (app, bool) {
 		case "L", "M", "S":
 		case "n", "f", "s", "m", "t", "d":
 			args[i] = app{r.baseArg(baseOfCode(c[0])), baseOfCode(c[0]), false}
+			if wrap && i > 0 {
+				args[i].text = x.pick([]string{"4294967296", "-4294967296", "4611686018427387904", "-9223372036854775808", "65536"})
+			}
 		case "i":
 			args[i] = app{x.pick([]string{"0", "0", "1", "2", "-1"}), tyNumber, false}
 		case "a":
